@@ -46,6 +46,7 @@ class _FieldFile(object):
 
 
 def _file(E):
+    E.symbolic_regions = True      # b'\\0' * n with symbolic n stays a region of symbolic length
     L = E.int('reclen', 1, 32767)
     length = E.int('file_length', 0, 2**40)
     recpos = E.int('loc', 0, 2**25)
